@@ -26,6 +26,7 @@ type hspec struct {
 type scenario struct {
 	Tbl      []hspec `json:"tbl"`
 	Async    int     `json:"async"` // queue size, 0 = sync channel
+	Until    bool    `json:"until"` // async channel waits for pending writes (the bootstrap default)
 	Reads    int     `json:"reads"` // read-loop iterations to allow before the end
 	Closers  []int   `json:"closers"`
 	FailW    int     `json:"failw"` // fail the k-th transport write (sender-failure path)
@@ -35,18 +36,20 @@ type scenario struct {
 }
 
 type result struct {
-	Log        []probe.Ev
-	Trace      []sched.Step
-	Picks      []int
-	ServeRet   int // log index at which ServeChannel returned
-	TClosed    int
-	CloseErrID int
-	Parked     []string
-	Escaped    []string
-	CtxDone    bool
-	Active     bool
-	WriteErrs  []string
-	FirstIter  []probe.Ev
+	Log         []probe.Ev
+	Trace       []sched.Step
+	Picks       []int
+	ServeRet    int // log index at which ServeChannel returned
+	WriteFailed bool
+	Spinning    bool // the run did not come to rest within the step bound: some goroutine polls for ever
+	TClosed     int
+	CloseErrID  int
+	Parked      []string
+	Escaped     []string
+	CtxDone     bool
+	Active      bool
+	WriteErrs   []string
+	FirstIter   []probe.Ev
 }
 
 func (h hspec) coq() string {
@@ -75,7 +78,7 @@ func run(sc scenario, choose func(step int, en []*sched.Thread, last *sched.Thre
 	ex := &sched.Executor{S: s}
 	var ch netty.Channel
 	if sc.Async > 0 {
-		ch = netty.NewAsyncWriteChannel(sc.Async, false)(1, context.Background(), pl, tr, ex)
+		ch = netty.NewAsyncWriteChannel(sc.Async, sc.Until)(1, context.Background(), pl, tr, ex)
 	} else {
 		ch = netty.NewChannel()(1, context.Background(), pl, tr, ex)
 	}
@@ -145,6 +148,7 @@ func run(sc scenario, choose func(step int, en []*sched.Thread, last *sched.Thre
 	})
 	var last *sched.Thread
 	step := 0
+	s.MaxSteps = 6000
 	s.Run(func(en []*sched.Thread) *sched.Thread {
 		k := choose(step, en, last)
 		step++
@@ -154,12 +158,16 @@ func run(sc scenario, choose func(step int, en []*sched.Thread, last *sched.Thre
 	})
 	r.Log = log.Ev
 	r.Trace = s.Trace
+	r.Spinning = s.Aborted
 	for _, t := range s.Parked() {
 		r.Parked = append(r.Parked, t.Name+"@"+t.Point)
 	}
 	for _, e := range tr.Snapshot() {
 		if e.Kind == "close" {
 			r.TClosed++
+		}
+		if e.Err && e.Kind != "close" {
+			r.WriteFailed = true
 		}
 	}
 	r.CtxDone = ch.Context().Err() != nil
@@ -239,6 +247,13 @@ func check(sc scenario, r *result, meta *hx.Meta) {
 			seen[e.Pos] = true
 		}
 	}
+	if r.WriteFailed && (r.Spinning || r.TClosed == 0 || !r.CtxDone) {
+		v("C07", "sender-failure-not-closed", fmt.Sprintf("a transport write failed in the sender but the channel was not closed (transport closes %d, context done %v, still polling %v)", r.TClosed, r.CtxDone, r.Spinning))
+	}
+	if r.Spinning {
+		v("C05", "close-never-completes", "the channel never comes to rest: a goroutine polls for ever (Close waiting for a sender flag that is never released); transport closed "+fmt.Sprint(r.TClosed)+" times")
+		return
+	}
 	if len(r.Parked) > 0 {
 		v("C05", "loop-exit", "threads never finished: "+strings.Join(r.Parked, ","))
 	}
@@ -287,6 +302,7 @@ func genScenario(rng *hx.Rng, meta *hx.Meta, prop string) scenario {
 	}
 	if rng.Chance(50) {
 		sc.Async = 1 + rng.Intn(3)
+		sc.Until = rng.Bool()
 	}
 	sc.Writes = rng.Intn(3)
 	sc.Triggers = rng.Intn(2)
